@@ -150,7 +150,7 @@ func c16Req(p c16Prog, shared bool) Req {
 }
 
 func checkC16(c *Ctx) {
-	c.rule = "(a) sequential isolation: probe battery Q (programs touching every predefined value, the library functions and a synthetic library type) is run in a pristine worker process (one fresh process per probe) and then, in one process, after polluter sequences P1..Pn (every mutating operation applicable to predefined / library values: 自增/自减 on 数值, constructor redefinition of 异常 and of a library type, method/property writes on predefined values, redefinitions, abandoned call stacks, imports, declarations, mutation of library instances; the same through input-variable texts and through the playground HTTP handler, whose VarInput is evaluated by ExecVarInputText), with a shared Interpreter / handler object and with fresh ones; every probe outcome (result, display, error text) must equal its pristine outcome. All single polluters x all probes exhaustively, random sequences of 2..8 polluters. (b) concurrent isolation: see the race harness part of the rule below. distinct_nontrivial = distinct (polluter sequence, probe, interpreter sharing mode)"
+	c.rule = "(a) sequential isolation: probe battery Q (programs touching every predefined value, the library functions and a synthetic library type) is run in a pristine worker process (one fresh process per probe) and then, in one process, after polluter sequences P1..Pn (every mutating operation applicable to predefined / library values: 自增/自减 on 数值, constructor redefinition of 异常 and of a library type, method/property writes on predefined values, redefinitions, abandoned call stacks, imports, declarations, mutation of library instances; the same through input-variable texts and through the playground HTTP handler, whose VarInput is evaluated by ExecVarInputText), with a shared Interpreter / handler object and with fresh ones; every probe outcome (result, display, error text) must equal its pristine outcome. All single polluters x all probes exhaustively, random sequences of 2..8 polluters. (a2) descriptor conservation: a probe counting the process's open file descriptors never counts more after executions that load a main file and 40 modules than before. (b) concurrent isolation: see the race harness part of the rule below. distinct_nontrivial = distinct (polluter sequence, probe, interpreter sharing mode)"
 	c.assumptions = []string{"the worker registers a synthetic library (a type with collection defaults and a method) through the public SetExternalLibs API because the libraries that build on this platform export only functions", "probes never call 取随机数 for its value"}
 	rng := c.Rand("c16")
 	pol := c16Polluters()
@@ -227,5 +227,66 @@ func checkC16(c *Ctx) {
 	})
 	c.Sample(map[string]interface{}{"polluters": []string{pol[0].name, pol[6].name}, "probe": probes[0].name, "pristine_outcome": clip(pristine[0], 100)})
 	c.Sample(map[string]interface{}{"polluter_program": pol[6].src, "probe_program": probes[4].src, "pristine_outcome": clip(pristine[4], 100)})
+	c16Descriptors(c)
 	checkC16Concurrent(c)
+}
+
+// c16Descriptors: what an execution opens it gives back. A probe that counts the process's open
+// file descriptors (读取目录 of /proc/self/fd) is run before and after executions that load a main
+// file and 40 modules, all in one process: the count must be the same every time (descriptors left
+// to the garbage collector make the probe's result depend on what ran before - and, with a low
+// limit, make later executions fail with "module not found")
+func c16Descriptors(c *Ctx) {
+	files := []File{}
+	var mainSrc strings.Builder
+	for k := 0; k < 40; k++ {
+		mainSrc.WriteString(fmt.Sprintf("导入“件%02d”\n", k))
+		files = append(files, File{Path: fmt.Sprintf("件%02d.zn", k), Data: widen([]byte(fmt.Sprintf("如何法%02d？\n\t输出 %d\n", k, k)))})
+	}
+	mainSrc.WriteString("输出（法07）+（法39）\n")
+	files = append([]File{{Path: "main.zn", Data: widen([]byte(mainSrc.String()))}}, files...)
+	p := Req{Op: "exec", Main: "main.zn", Files: files, Libs: true, EvalBudget: 100000, ParseBudget: 100000}
+	q := execReq("导入《@文件》\n输出（读取目录：“/proc/self/fd”）之长度\n")
+	q.Libs = true
+	batch := []Req{q, q, p, q, p, p, p, q, q}
+	resp := c.Pool.DoFresh(Req{Op: "batch", Batch: batch})
+	c.Eval()
+	if resp.Kind != "ok" || len(resp.Batch) != len(batch) {
+		c.Inconclusive("descriptor probe: worker outcome " + resp.Kind)
+		return
+	}
+	counts := []string{}
+	for i, r := range resp.Batch {
+		if batch[i].Main != "" {
+			if r.Kind != "value" || r.Val == nil || r.Val.String() != "num(46)" {
+				c.Inconclusive("descriptor probe: the 40-module program did not run: " + r.Outcome())
+				return
+			}
+			counts = append(counts, "P")
+			continue
+		}
+		if r.Kind != "value" || r.Val == nil || r.Val.T != "num" {
+			c.Inconclusive("descriptor probe: cannot count descriptors: " + r.Outcome())
+			return
+		}
+		counts = append(counts, fmt.Sprint(r.Val.F()))
+	}
+	c.Nontrivial("descriptors|" + strings.Join(counts, ","))
+	c.Count("descriptor_probes", 5)
+	// (the harness process may close a descriptor of its own in between - the count may fall,
+	// that is not Zn's doing; it must never have grown after executions that are over)
+	low := -1.0
+	for i, r := range resp.Batch {
+		if batch[i].Main != "" {
+			continue
+		}
+		n := r.Val.F()
+		if low >= 0 && n > low {
+			c.Violation("descriptors:leak", fmt.Sprintf("executions that are over left file descriptors open: %s (P = an execution loading a main file and 40 modules; numbers = what 读取目录(/proc/self/fd) 之长度 yields in the same process)", strings.Join(counts, " ")), map[string]interface{}{"reqs": []Req{{Op: "batch", Batch: batch}}})
+			return
+		}
+		if low < 0 || n < low {
+			low = n
+		}
+	}
 }
